@@ -374,8 +374,16 @@ def ips_write(arg: dict) -> dict:
 # .include_ips (C13)
 # ------------------------------------------------------------------------------------------
 def _ips_program(placement: str, directive: str) -> str:
-    d = {p: "" for p in ("first", "between", "block", "after")}
+    d = {p: "" for p in ("first", "between", "block", "after", "reloc_rom", "reloc_ram", "macro")}
     d[placement] = directive + "\n"
+    if placement in ("reloc_rom", "reloc_ram"):
+        # the directive sits in the middle of a block that is assembled to run elsewhere (@=)
+        target = "0x028000" if placement == "reloc_rom" else "0x7e2000"
+        return ("*=0x008000\nstart:\n.db 7\n@=" + target + "\nrun:\n.db 1, 2\n" + d[placement] +
+                "mid:\n.db 3\n.dl run, mid\n*=0x018000\ntail:\n.db 4\n.dl start, tail\n")
+    if placement == "macro":
+        return ("*=0x008000\n.macro patch() {\n.db 5\n" + d["macro"] + ".db 6\n}\nstart:\n.db 1\npatch()\nmid:\n.db 3\n"
+                ".dl start, mid\n")
     return ("*=0x008000\n" + d["first"] + "start:\n.db 1, 2\n" + d["between"] + "mid:\n.db 3\n{\n.db 9\n" + d["block"] +
             "inner:\n.dw inner\n}\n*=0x018000\n" + d["after"] + "tail:\n.db 4\n.dl start, mid, tail\n")
 
@@ -389,3 +397,52 @@ def include_ips_case(arg: dict) -> dict:
     with_ = assemble({"src": _ips_program(arg["placement"], directive), "files": files})
     pick = lambda o: {"ok": o["ok"], "calls": o["calls"], "labels": o["labels"], "err": o["err"]}  # noqa: E731
     return {"base": pick(base), "with": pick(with_)}
+
+
+# ------------------------------------------------------------------------------------------
+# tables (C18)
+# ------------------------------------------------------------------------------------------
+def render_table(entries: list[dict]) -> str:
+    return "".join("".join(f"{b:02X}" for b in e["code"]) + "=" + "".join(e["text"]) + "\n" for e in entries)
+
+
+def render_symbols(s: list[dict]) -> str:
+    return "".join(x["v"] if x["k"] == "c" else f"[0x{x['v']:02X}]" for x in s)
+
+
+def table_codec(arg: dict) -> list[dict]:
+    """Load a generated table through the real Table class; run every string through the codec."""
+    from script import Table
+    write_files({"t.tbl": {"text": render_table(arg["table"])}})
+    t = Table("t.tbl")
+    out = []
+    for s in arg["strings"]:
+        text = render_symbols(s)
+        try:
+            b = t.to_bytes(text)
+            back = t.to_text(b)
+            out.append({"bytes": list(b), "back": list(back)})
+        except BaseException as e:  # noqa: BLE001
+            out.append({"bytes": [-1], "back": [], "err": f"{type(e).__name__}: {e}"})
+    return out
+
+
+def table_program(arg: dict) -> dict:
+    files = {f"t{k + 1}.tbl": {"text": render_table(t)} for k, t in enumerate(arg["tables"])}
+    lines = [f"*=0x{arg['org']:06x}"]
+    nscope = 0
+    for it in arg["items"]:
+        if it["k"] == "open":
+            nscope += 1
+            lines.append("{" if arg.get("scope_style", "block") == "block" or nscope % 2 else f".scope ns{nscope} {{")
+        elif it["k"] == "close":
+            lines.append("}")
+        elif it["k"] == "table":
+            lines.append(f".table 't{it['t']}.tbl'")
+        else:
+            lines.append(f".text '{render_symbols(it['s'])}'")
+    lines.append("endlabel:")
+    src = "\n".join(lines) + "\n"
+    o = assemble({"src": src, "files": files})
+    end = dict((n, v) for n, v in o["labels"]).get("endlabel", -1)
+    return {"ok": o["ok"], "bytes": [b for _, blk in o["calls"] for b in blk], "endlabel": end, "err": o["err"], "src": src}
